@@ -768,6 +768,19 @@ func (e *Env) call(n ECall) Term {
 	case "catm":
 		argN(4)
 		return mk(SBSeq, "catm", e.tr(n.Args[0]), e.tr(n.Args[1]), e.tr(n.Args[2]), e.tr(n.Args[3]))
+	case "store":
+		argN(3)
+		a := e.tr(n.Args[0])
+		return sto(a, e.tr(n.Args[1]), e.tr(n.Args[2]))
+	case "allfalse":
+		argN(0)
+		return Term{S: "((as const (Array Int Bool)) false)", Sort: SHeapB}
+	case "allzero":
+		argN(0)
+		return Term{S: "((as const (Array Int Int)) 0)", Sort: SHeap}
+	case "zerobase":
+		argN(0)
+		return fv.zerobase()
 	case "heap":
 		argN(1)
 		hs, ok := n.Args[0].(EStr)
@@ -977,14 +990,8 @@ func (e *Env) specCall(sf *SpecFunc, n ECall) Term {
 			r = mk(rs, name, all...)
 		}
 		r.T = rt
-		if sf.Opaque && sf.Body != nil && fv.revealed(sf.Name) && e.depth < 3 {
-			// instance of the definition
-			ne := &Env{fv: fv, st: e.st, old: e.old, vars: map[string]Term{}, callee: true, depth: e.depth + 1, pos: sf.Pos, bound: e.bound}
-			for i, p := range sf.Params {
-				ne.vars[p.Name] = args[i]
-			}
-			def := ne.tr(sf.Body)
-			fv.assume(eq(r, def))
+		if sf.Opaque && sf.Body != nil && fv.revealed(sf.Name) {
+			fv.revealAxiom(sf, name, sorts, rs)
 		}
 		return r
 	}
@@ -1285,4 +1292,54 @@ func (fv *FuncVC) frameAxiom(env *Env, hn string, old, nh Term, clauses []Clause
 		g = "(and " + strings.Join(conds, " ") + ")"
 	}
 	return Term{S: fmt.Sprintf("(forall ((a!f Int)) (! (=> %s (= (select %s a!f) (select %s a!f))) :pattern ((select %s a!f))))", g, nh.S, old.S, nh.S), Sort: SBool}
+}
+
+// revealAxiom adds (once) the definitional axiom of an opaque spec function:
+// forall heaps, params :: f(heaps, params) == body, triggered on applications.
+func (fv *FuncVC) revealAxiom(sf *SpecFunc, name string, sorts []string, rs string) {
+	if fv.declared["reveal:"+sf.Name] {
+		return
+	}
+	fv.declared["reveal:"+sf.Name] = true
+	st := newState()
+	var decl, syms []string
+	// heaps read by the function become bound array variables
+	tmp := fv.newEnv(fv.cur, fv.cur)
+	for i, r := range sf.Reads {
+		h := tmp.heapByName(r)
+		sym := fmt.Sprintf("h%d!o", i)
+		hn := fv.heapKeyOf(r)
+		st.heaps[hn] = Term{S: sym, Sort: h.Sort}
+		decl = append(decl, fmt.Sprintf("(%s %s)", sym, h.Sort))
+		syms = append(syms, sym)
+	}
+	ne := &Env{fv: fv, st: st, old: st, vars: map[string]Term{}, callee: true, depth: 1, pos: sf.Pos}
+	for _, p := range sf.Params {
+		pt, ps := fv.resolveType(p.Type)
+		sym := p.Name + "!o"
+		ne.vars[p.Name] = Term{S: sym, Sort: ps, T: pt}
+		decl = append(decl, fmt.Sprintf("(%s %s)", sym, ps))
+		syms = append(syms, sym)
+	}
+	fv.strictState = st
+	body := ne.tr(sf.Body)
+	fv.strictState = nil
+	app := "(" + name + " " + strings.Join(syms, " ") + ")"
+	fv.axioms = append(fv.axioms, fmt.Sprintf("(forall (%s) (! (= %s %s) :pattern (%s)))", strings.Join(decl, " "), app, body.S, app))
+}
+
+// heapKeyOf maps a contract-level heap name to the internal heap key.
+func (fv *FuncVC) heapKeyOf(name string) string {
+	if name == "M" || strings.HasPrefix(name, "P.") || strings.HasPrefix(name, "H.") {
+		return name
+	}
+	if strings.HasPrefix(name, "elem:") {
+		t, _ := fv.resolveType(name[5:])
+		return fv.scalarHeapName(t)
+	}
+	if i := strings.LastIndex(name, "."); i > 0 {
+		t, _ := fv.resolveType(name[:i])
+		return fv.fieldHeapName(t, name[i+1:])
+	}
+	return name
 }
